@@ -55,6 +55,7 @@ pub fn spec() -> Spec {
         amb: |m| m.stats.ambiguous_a1 || m.stats.ambiguous_a2 || m.stats.ambiguous_a9,
         counters,
         signature: no_sig,
+        slice: false,
         also_check: true,
     }
 }
